@@ -191,7 +191,9 @@ class Instance:
             if f_default is MISSING:
                 f_default = self._self_builder.namespace.get(f_name, MISSING)
             if f_default is not MISSING:
-                f_default = _default(f_type, f_default, self.get_self_config())
+                f_default = _default(
+                    f_type, f_default, self.get_self_config(), f.metadata
+                )
 
             has_default = (
                 f.default is not MISSING or f.default_factory is not MISSING
@@ -301,7 +303,19 @@ def _get_schema_or_none(
     return schema
 
 
-def _default(f_type: Type, f_value: Any, config_cls: Type[BaseConfig]) -> Any:
+def _default(
+    f_type: Type,
+    f_value: Any,
+    config_cls: Type[BaseConfig],
+    metadata: Optional[Mapping[str, Any]] = None,
+) -> Any:
+    # the default is rendered the way the field itself is serialized
+    # (field-level serialize option / serialization strategy included)
+    metadata = {
+        k: v
+        for k, v in (metadata or {}).items()
+        if not (k == "serialize" and v == "omit")
+    }
     # the helper field must not have a default of its own (a mutable one is
     # rejected by dataclasses, and omit_default would drop the key); only a
     # None default is kept because it makes the field nullable
@@ -309,7 +323,9 @@ def _default(f_type: Type, f_value: Any, config_cls: Type[BaseConfig]) -> Any:
 
         @dataclass
         class CC(DataClassJSONMixin):
-            x: f_type = None  # type: ignore
+            x: f_type = field(  # type: ignore
+                default=None, metadata=metadata
+            )
 
             class Config(config_cls):  # type: ignore
                 serialize_by_alias = False
@@ -318,7 +334,7 @@ def _default(f_type: Type, f_value: Any, config_cls: Type[BaseConfig]) -> Any:
 
         @dataclass
         class CC(DataClassJSONMixin):  # type: ignore
-            x: f_type  # type: ignore
+            x: f_type = field(metadata=metadata)  # type: ignore
 
             class Config(config_cls):  # type: ignore
                 serialize_by_alias = False
